@@ -18,6 +18,7 @@ from .core import (
     ConfigValidator,
     Field,
     FieldValidator,
+    InstanceMethodFieldMixin,
     Schema,
     VirtualFieldMixin,
 )
@@ -365,6 +366,11 @@ def is_value_defined(config: Config, key: str) -> bool:
     if path:
         config = config[path]
 
+    if isinstance(
+        config._get_field(key), (VirtualFieldMixin, InstanceMethodFieldMixin)
+    ):
+        # these fields never hold a value of their own
+        return False
     return key not in config._default_value_keys
 
 
